@@ -70,10 +70,15 @@ pub fn gen_input(ctx: &Ctx, case_idx: u64, rng: &mut Rng) -> (String, Vec<u8>) {
             (format!("corpus-crlf:{}", CORPUS[i]), to_crlf(&d))
         };
     }
+    if case_idx % 203 == 5 && !ctx.slow() {
+        let n = 300 + rng.below(400);
+        let ast = pgvcore::ast::huge_group_ast(rng, n);
+        return ("ast-huge-group".to_string(), ast.print(Term::Lf, true, rng));
+    }
     match case_idx % 4 {
         0 | 1 => {
             let mut cfg = crate::props::c01::cfg_for(case_idx / 4);
-            cfg.max_blocks = if ctx.slow() { 4 } else { 14 };
+            cfg.max_blocks = if ctx.slow() { 4 } else { cfg.max_blocks.min(14) };
             let ast = Gen::new(rng, cfg).ast();
             let t = *rng.pick(&Term::ALL);
             let ast = if rng.chance(1, 3) { ast.with_noise(rng, 15) } else { ast };
